@@ -52,7 +52,7 @@ ASSUMPTIONS = [
     "non-ASCII text in a non-N'' MSSQL literal is a server code-page question, not a lexical one: not judged",
     "known findings excluded by construction and pinned: strings matching the compiler's own bind-template regexes on positional paramstyles "
     "(C05/positional-regex-rewrites-literal, C05/numeric-postcompile-regex-rewrites-literal), SQLite OFFSET without LIMIT (C05/sqlite-offset-no-limit) "
-    "and binds inside RETURNING (C05/returning-ignores-literal-binds) under literal_binds",
+    "and binds inside RETURNING (C05/returning-ignores-literal-binds) under literal_binds; the empty tuple IN literal ('VALUES SELECT', fixed in 5b69129) is generated again",
 ]
 
 ATOMS = [
@@ -153,8 +153,8 @@ def interesting(v, kind):
 
 
 # ---------------------------------------------------------------- statements
-POSITIONS = ["select", "where", "in", "tin", "func", "values", "set", "limit"]
-FINDING_POSITIONS = ["offset", "returning", "tin_empty"]
+POSITIONS = ["select", "where", "in", "tin", "tin_empty", "func", "values", "set", "limit"]
+FINDING_POSITIONS = ["offset", "returning"]
 
 
 def make_stmt(pos, spec, v, mode, tbl):
@@ -518,9 +518,6 @@ def check_token(case, ctx):
                 v = v.replace("%(", "%{")
             if pos == "offset" and flavor == "sqlite" and mode == "lb" and not pinned:
                 ctx.exclude("sqlite OFFSET without LIMIT under literal_binds (known finding C05/sqlite-offset-no-limit)")
-                continue
-            if pos == "tin_empty" and dialect.tuple_in_values and not pinned:
-                ctx.exclude("empty tuple IN rendered as literal on a tuple_in_values dialect (known finding C05/empty-tuple-in-literal-values-prefix)")
                 continue
             if pos == "returning" and mode == "lb" and not pinned:
                 ctx.exclude("bind inside RETURNING under literal_binds (known finding C05/returning-ignores-literal-binds)")
